@@ -335,7 +335,7 @@ pub fn tails() -> Vec<(&'static str, Vec<String>)> {
 }
 
 pub fn enc_operand(op: &Operand) -> String {
-    format!("e:{}:{}{}{}:{}", enc_str(&op.text), b(op.low_prec), b(op.has_attrs), b(op.block_like), enc_strs(&lex(&op.src, false)))
+    format!("e:{}:{}{}:{}", enc_str(&op.text), b(op.low_prec), b(op.has_attrs), enc_strs(&lex(&op.src, false)))
 }
 
 pub fn enc_args(op: Option<&Operand>, tail: &[String]) -> String {
@@ -391,10 +391,10 @@ pub fn try_cases(o: &mut Outcome, _thorough: bool) {
                             continue;
                         };
                         let Some(r) = first(&recs, "try") else { continue };
-                        for (stmt, key) in [(false, "expr"), (true, "stmt")] {
+                        {
                             // the hook calls `convert_try_mac` whatever the option says; the option is the caller's
                             // (`rewrite_macro_inner`, `convert_try` of chains.rs) guard: model it as the caller does
-                            let real = r.get(key).unwrap_or("");
+                            let real = r.get("expr").unwrap_or("");
                             let expect = if real == "none" || !opt {
                                 "none".to_string()
                             } else {
@@ -403,8 +403,8 @@ pub fn try_cases(o: &mut Outcome, _thorough: bool) {
                             };
                             // the path as `pprust::path_to_string` prints it (`r#try` is `try` before 2018)
                             let printed = r.get("path").unwrap_or("");
-                            let req = format!("opt.try {} {} {} {}", b(opt), enc_str(printed), b(stmt), enc_args(op, tail));
-                            o.push("corr", "opt.try", req, expect, format!("{:?} {}", src, key), real != "none");
+                            let req = format!("opt.try {} {} {}", b(opt), enc_str(printed), enc_args(op, tail));
+                            o.push("corr", "opt.try", req, expect, format!("{:?}", src), real != "none");
                         }
                         o.count(&format!("try:path {} printed {}", path, r.get("path").unwrap_or("")));
                     }
